@@ -1,6 +1,7 @@
 pub mod c12;
 pub mod gds;
 pub mod c13;
+pub mod c14;
 pub mod c15;
 pub mod c16;
 pub mod c17;
@@ -13,6 +14,7 @@ pub fn gen(prop: &str, thorough: bool, seed: u64, out: &mut Vec<String>) {
         "C10" => gds::gen_c10(thorough, &mut rng, out),
         "C12" => c12::gen(thorough, &mut rng, out),
         "C13" => c13::gen(thorough, &mut rng, out),
+        "C14" => c14::gen(thorough, &mut rng, out),
         "C15" => c15::gen(thorough, &mut rng, out),
         "C16" => c16::gen(thorough, &mut rng, out),
         "C17" => c17::gen(thorough, &mut rng, out),
@@ -27,6 +29,7 @@ pub fn oracle(prop: &str, line: &str) -> String {
         "C10" => gds::oracle_c10(line),
         "C12" => c12::oracle(line),
         "C13" => c13::oracle(line),
+        "C14" => c14::oracle(line),
         "C15" => c15::oracle(line),
         "C16" => c16::oracle(line),
         "C17" => c17::oracle(line),
@@ -39,6 +42,7 @@ pub fn tag(prop: &str, line: &str) -> String {
         "C01" | "C02" | "C03" | "C10" => gds::tag(line),
         "C12" => c12::tag(line),
         "C13" => c13::tag(line),
+        "C14" => c14::tag(line),
         "C15" => c15::tag(line),
         "C16" => c16::tag(line),
         "C17" => c17::tag(line),
